@@ -432,6 +432,8 @@ func checkDocumentPartsBuilt(c *Ctx, p *core.Prog) {
 			"a path returns without building the part (e.g. for a document without tokens): the field stays nil and the functions that use it dereference it unconditionally - adding or matching a wordless document panics")
 	}
 	c.R.RequireMin("R10.7", "methods that build a part of a document", nB, 2)
+	// (c)
+	checkSecondPassHasSearchSet(c, p, builders)
 	// (b)
 	m := p.Func(v2pkg, "(*Classifier).match")
 	if m == nil {
@@ -476,6 +478,98 @@ func checkDocumentPartsBuilt(c *Ctx, p *core.Prog) {
 		c.R.Check(bad == "", "R10.7", "match: the input's "+cal.Name()+" runs whenever the loop that uses its result can run", p.Pos(call.Pos()), "unconditional, or guarded only by `the first pass is not empty`",
 			"the builder call also depends on the condition at "+bad+": the loop over the first-pass documents reads the part unconditionally, so on the inputs for which the condition is false (short inputs) it dereferences nil")
 	}
+}
+
+// checkSecondPassHasSearchSet: R10.7 (c). The second pass of match dereferences the search set of every document the first
+// pass admitted. A corpus document without words has the token similarity 0/0 = NaN. Either every document stored in
+// the corpus gets its search set built (the builder call dominates or post-dominates the store into the corpus map), or
+// the first pass admits a document only behind a comparison that is false for NaN (`sim >= t` taken on its true edge; not
+// `sim < t` on its false edge, which NaN passes). With neither, matching against a corpus that holds a wordless document
+// dereferences nil.
+func checkSecondPassHasSearchSet(c *Ctx, p *core.Prog, builders []*ssa.Function) {
+	m := p.Func(v2pkg, "(*Classifier).match")
+	if m == nil {
+		return
+	}
+	// (A) every store into Classifier.docs is accompanied by the search-set builder on the stored document
+	allBuilt, nStores, whyA := true, 0, ""
+	var ssBuilder *ssa.Function
+	for _, bf := range builders {
+		if strings.Contains(strings.ToLower(bf.Name()), "searchset") {
+			ssBuilder = bf
+		}
+	}
+	for _, fn := range v2Funcs(p) {
+		var pd *core.PostDom
+		for _, b := range fn.Blocks {
+			for _, in := range b.Instrs {
+				mu, ok := in.(*ssa.MapUpdate)
+				if !ok || !isClsField(mu.Map, func(r *v2Roles) string { return r.docs }) {
+					continue
+				}
+				nStores++
+				built := false
+				for _, call := range core.CallsIn(fn) {
+					if ssBuilder == nil || call.Common().StaticCallee() != ssBuilder || core.Unspill(call.Common().Args[0]) != core.Unspill(mu.Value) {
+						continue
+					}
+					if pd == nil {
+						pd = core.NewPostDom(fn)
+					}
+					if call.Block() == b || call.Block().Dominates(b) || pd.PostDominates(call.Block(), b) {
+						built = true
+					}
+				}
+				if !built {
+					allBuilt, whyA = false, core.ShortFn(fn)+" stores a document in the corpus on a path that does not build its search set ("+p.Pos(mu.Pos())+")"
+				}
+			}
+		}
+	}
+	// (B) the first pass admits behind a NaN-rejecting comparison
+	nanSafe, nAdmit, whyB := true, 0, ""
+	for _, fn := range pkgClosure(m, v2pkg) {
+		for _, b := range fn.Blocks {
+			for _, in := range b.Instrs {
+				mu, ok := in.(*ssa.MapUpdate)
+				if !ok {
+					continue
+				}
+				if _, isLocal := core.Unspill(mu.Map).(*ssa.MakeMap); !isLocal {
+					continue
+				}
+				r := rolesOf(p)
+				if pt, isP := mu.Value.Type().(*types.Pointer); !isP || !(types.Identical(pt.Elem(), r.docType) || types.Identical(pt, r.docType)) {
+					continue
+				}
+				nAdmit++
+				positive := false
+				for _, f := range core.FactsAt(b) {
+					bo, ok := f.Cond.(*ssa.BinOp)
+					if !ok || !f.Truth {
+						continue
+					}
+					isSim := func(v ssa.Value) bool {
+						call, ok := v.(*ssa.Call)
+						return ok && call.Call.StaticCallee() != nil && strings.Contains(strings.ToLower(call.Call.StaticCallee().Name()), "similarity")
+					}
+					if ((bo.Op == token.GEQ || bo.Op == token.GTR) && isSim(bo.X)) || ((bo.Op == token.LEQ || bo.Op == token.LSS) && isSim(bo.Y)) {
+						positive = true
+					}
+				}
+				if !positive {
+					nanSafe, whyB = false, core.ShortFn(fn)+" admits a document to the second pass without a comparison that is false for NaN ("+p.Pos(mu.Pos())+")"
+				}
+			}
+		}
+	}
+	if nStores == 0 || nAdmit == 0 || ssBuilder == nil {
+		c.R.Info("R10.7", "second pass: search sets of the admitted documents", p.Pos(m.Pos()), fmt.Sprintf("not decided: %d corpus stores, %d admissions found", nStores, nAdmit))
+		return
+	}
+	c.R.Check(allBuilt || nanSafe, "R10.7", "match: a document that reaches the second pass has a search set", p.Pos(m.Pos()),
+		fmt.Sprintf("every corpus store builds the search set: %v; the first pass rejects NaN similarities: %v", allBuilt, nanSafe),
+		whyA+"; "+whyB+": a corpus document without words (similarity 0/0 = NaN) reaches the second pass with a nil search set and Match panics")
 }
 
 // rangedOverInCallee: the map is handed to a function of the package that ranges over the corresponding parameter.
